@@ -75,7 +75,7 @@ def h_ssModel : Handler := fun j => do
       | .error e => pure (Json.mkObj [("err", e.tag)])
       | .ok m =>
         let potRows := pots.map fun n => Json.mkObj [("n", Json.str n),
-          ("c", jsonVec (m.cRowPotential n)), ("d", jsonVec (m.dRowPotential n))]
+          ("c", jsonRow (m.cRowPotential n)), ("d", jsonRow (m.dRowPotential n))]
         let idRows := ids.map fun id => Json.mkObj [("id", Json.str id),
           ("vc", jsonRow (m.cRowVoltage id)), ("vd", jsonRow (m.dRowVoltage id)),
           ("ic", jsonRow (m.cRowCurrent id)), ("id_", jsonRow (m.dRowCurrent id))]
